@@ -470,7 +470,30 @@ func (ei *resourceInformer) start() {
 		return
 	}
 
+	// An object listed by loadExistedObjects and deleted before the informer has listed objects by itself
+	// is not in the informer's store and no Deleted event will come for it: remove it from the cache.
+	ei.removeStaleCachedObjects(DefaultFactoryStore.Objects(ei.FactoryIndex))
+
 	log.Debug("informer is ready", slog.String("debugName", ei.Monitor.Metadata.DebugName))
+}
+
+// removeStaleCachedObjects removes cached objects that are not among objects in the informer's store.
+func (ei *resourceInformer) removeStaleCachedObjects(storeObjects []interface{}) {
+	existing := make(map[string]struct{}, len(storeObjects))
+	for _, storeObj := range storeObjects {
+		if obj, ok := storeObj.(*unstructured.Unstructured); ok {
+			existing[resourceId(obj)] = struct{}{}
+		}
+	}
+
+	ei.cacheLock.Lock()
+	defer ei.cacheLock.Unlock()
+	for id := range ei.cachedObjects {
+		if _, ok := existing[id]; !ok {
+			delete(ei.cachedObjects, id)
+		}
+	}
+	ei.cachedObjectsInfo.Count = uint64(len(ei.cachedObjects))
 }
 
 func (ei *resourceInformer) pauseHandleEvents() {
